@@ -74,6 +74,8 @@ var pairCore = []string{
 	"", ".", "..", "a", "f", "a/f", "b", "a/b", "../b", "../secret", "../../secret", "../b/f", "a/../f", "./f",
 }
 
+var siblingStrings = []string{"bb", "/bb", "../bb", "/../bb", "bb/f", "/bb/f", "../bb/f", "/../bb/f", "a/../../bb", "/../bb/.."}
+
 type pathStr struct {
 	S    string
 	Segs int
@@ -209,6 +211,16 @@ func buildOps(tier string) []opT {
 			}
 
 			ops = append(ops, opT{Call: c, A: p.S, MaxLevel: lvl})
+		}
+	}
+
+	// thorough only, level 1 only: strings naming "bb", the sibling /top/bb of
+	// B=/top/b in the base (a prefix test on strings confuses the two)
+	if tier == "thorough" {
+		for _, p := range siblingStrings {
+			for _, c := range singleCalls {
+				ops = append(ops, opT{Call: c, A: p, MaxLevel: 1})
+			}
 		}
 	}
 
